@@ -133,6 +133,8 @@ def run(tier, seed):
     chk.add_rule("C10.S.lock_reads", ok, sites, failing, detail="the registry's public methods have one path: lock, delegate to BackendRegistryState, publish - no lock-free or memo-first shortcut")
     ok, sites, failing = frame.rule_snapshot()
     chk.add_rule("C10.S.snapshot", ok, sites, failing)
+    ok, sites, failing = frame.rule_snapshot_copy()
+    chk.add_rule("C10.S.snapshot_copy", ok, sites, failing)
     ok, sites, failing = frame.rule_tls(TLS)
     chk.add_rule("C10.S.tls", ok, sites, failing)
     ok, sites, failing = frame.rule_closure_state()
